@@ -163,7 +163,10 @@ CondProgs == << <<"tern", <<"lit", VBool(TRUE)>>, LI(1), DivZero>>, <<"tern", <<
                 <<"stmt", <<<<"tern", <<"lit", VBool(TRUE)>>, <<"bin", "=", <<"ref", "a">>, LI(1)>>, <<"bin", "=", <<"ref", "a">>, LI(2)>>>>, <<"ref", "a">>>>>>,
                 <<"tern", <<"bin", ">", <<"ref", "d">>, LI(10)>>, DivZero, <<"tern", <<"bin", ">", <<"ref", "d">>, LI(-1)>>, <<"lit", VStr(<<109>>)>>, DivZero>>>>,
                 <<"tern", <<"bin", "==", <<"ref", "n">>, <<"none">>>>, LI(0), <<"bin", "+", <<"ref", "n">>, LI(1)>>>>,
-                <<"tern", LI(1), LI(2), LI(3)>>, <<"tern", <<"none">>, LI(2), LI(3)>> >>
+                <<"tern", LI(1), LI(2), LI(3)>>, <<"tern", <<"none">>, LI(2), LI(3)>>,
+                \* a map literal is the list of its entries, in source order, a repeated key included
+                <<"map", <<<<LI(1), LI(1)>>, <<LI(2), LI(2)>>, <<LI(3), LI(3)>>, <<LI(4), LI(4)>>, <<LI(5), LI(5)>>, <<LI(1), LI(7)>>>>>>,
+                <<"bin", "==", <<"map", <<<<LI(1), LI(1)>>, <<LI(2), LI(2)>>, <<LI(1), LI(7)>>>>>>, <<"map", <<<<LI(1), LI(1)>>, <<LI(2), LI(2)>>, <<LI(1), LI(7)>>>>>>>> >>
 CondInit == \E k \in 1..Len(CondProgs) : Start(AssignEnv(NoFault), CondProgs[k], ("d" :> <<"var", VInt(0)>>))
 Init == IF Family = "cond" THEN CondInit ELSE IF Family = "assign" THEN AssignInit ELSE IF Family = "dispatch" THEN DispatchInit ELSE IF Family = "dup" THEN DupInit ELSE ShapeInit
 VALToJson(st, v) == IF st = "ok" THEN v ELSE <<"none">>
